@@ -147,6 +147,7 @@ def _install_env():
 
 
 _install_env()
+xx.logger.disabled = True  # logging handlers write to stderr (blocked side effect under CrossHair)
 
 
 def _survey():
@@ -165,21 +166,11 @@ def _reset(java, write_fail, rc, timeout, stderr):
     ENV.validator_calls = 0
 
 
-@ob(
-    "C18",
-    "a.verdict-and-residue",
-    timeout=400,
-    kernel=K[:5],
-    shims=("S1", "S2", "S3", "S4", "S7"),
-    symbolic="validator return code in [-3,3], timeout flag, stderr of 0-2 symbolic characters, java present, write failure, validate flag, pretty_print flag",
-    bounds="one-question survey; every combination of the outcome flags",
-    weight=100,
-)
 def c18_verdict(validate: bool, pretty: bool, java: bool, write_fail: bool, rc: int, timeout: bool, has_err: bool, e0: int, e1: int) -> bool:
     """
-    pre: -3 <= rc <= 3
-    pre: 33 <= e0 <= 126 and 33 <= e1 <= 126 and e0 != 47 and e1 != 47
-    post: _ == True
+    vpre: -3 <= rc <= 3
+    vpre: 97 <= e0 <= 122 and 97 <= e1 <= 122
+    vpost: _ == True
     """
     stderr = S(e0, e1) if has_err else ""
     _reset(java, write_fail, rc, timeout, stderr)
@@ -216,6 +207,21 @@ def c18_verdict(validate: bool, pretty: bool, java: bool, write_fail: bool, rc: 
             return len(warnings) == 1 and stderr in warnings[0]
         return warnings == []
     return outcome == "ok" and len(warnings) == 1
+
+
+specialise(
+    "C18",
+    "a.verdict-and-residue",
+    c18_verdict,
+    {"validate": [False, True], "java": [False, True], "write_fail": [False, True]},
+    reach_if=lambda fx: fx["validate"] and fx["java"] and not fx["write_fail"],
+    timeout=400,
+    kernel=K[:5],
+    shims=("S1", "S2", "S3", "S4", "S7"),
+    symbolic="validator return code in [-3,3], timeout flag, stderr present (boolean) with 2 symbolic letters, pretty_print flag",
+    bounds="one-question survey; validate / java present / write failure fixed per instance (all 8 combinations)",
+    weight=100,
+)
 
 
 def c18_cleaner(shape: int, a0: int, a1: int, b0: int, b1: int) -> bool:
